@@ -53,9 +53,21 @@ theorem C09_delimited_space (r : Rec) (c : Ctx) (node : ANode) (hm : node.kind ‚
       pure ((), tight (if hasLinebreak node.text then Twin.line else Twin.space)) := by
   simp [delimitedProducer, hm, h]
 
-/-- T9.4 (exemption): around sub/superscripts and roots, white space is dropped (Typst ignores it there). -/
-theorem C09_attach_drops_space (e : Env) (r : Rec) (c : Ctx) (node : ANode) (hx : isExpr node = false) (h : node.kind = .space) :
-    attachProducer e r () c node = pure ((), none) := by
+/-- T9.4 (exemption): around sub/superscripts and roots, white space is dropped (Typst ignores it
+there) ‚Äî except before a subscript on a hashed identifier, where `#x _1` and `#x_1` differ: there the
+producer remembers the base (state `true`) and T9.5 keeps one blank. -/
+theorem C09_attach_drops_space (e : Env) (r : Rec) (st : Bool) (c : Ctx) (node : ANode) (hx : isExpr node = false) (h : node.kind = .space) :
+    attachProducer e r st c node = pure (st, none) := by
   simp [attachProducer, hx, h]
+
+/-- T9.5: a subscript mark after a hashed identifier is emitted with a blank allowed before it. -/
+theorem C09_attach_keeps_space_after_hashed_ident (e : Env) (r : Rec) (c : Ctx) (node : ANode)
+    (hx : isExpr node = false) (h : node.kind = .underscore) :
+    attachProducer e r true c node = pure (false, some ‚ü®e.tok node.text, true, false‚ü©) := by
+  simp [attachProducer, hx, h]
+
+theorem C09_root_drops_space (e : Env) (r : Rec) (c : Ctx) (node : ANode) (hx : isExpr node = false) (h : node.kind = .space) :
+    rootProducer e r () c node = pure ((), none) := by
+  simp [rootProducer, hx, h]
 
 end Typstyle
